@@ -476,6 +476,78 @@ def special_iterables(col, counter):
         col.violation('C14/star-order', "'*' on %r gave %r" % (od, got), None)
 
 
+class FreshTree:
+    """a tree whose children do not exist until they are asked for: every iteration builds new child objects (a lazily loaded
+    hierarchy, a DOM wrapper, a Box-style view)"""
+    __slots__ = ('label', 'depth', 'width')
+
+    def __init__(self, label, depth, width):
+        self.label, self.depth, self.width = label, depth, width
+
+    def __iter__(self):
+        if self.depth <= 0:
+            return iter(())
+        return iter([FreshTree(self.label + (i,), self.depth - 1, self.width) for i in range(self.width)])
+
+
+class FreshDict(dict):
+    """a mapping that wraps nested dicts in a new view object on every access (attribute-style dict wrappers do this)"""
+    def __getitem__(self, k):
+        v = dict.__getitem__(self, k)
+        return FreshDict(v) if type(v) is dict else v
+
+    def values(self):
+        return [self[k] for k in self]
+
+    def keys(self):
+        return list(dict.keys(self))
+
+
+def children_created_on_access(col, counter):
+    """targets that build their children when asked (each access yields NEW objects): ** reaches every descendant once, also when more
+    steps follow the wildcard - an object that exists only while it is being visited must not be confused with a later one"""
+    def bfs_labels(depth, width):
+        out, level = [()], [()]
+        for _ in range(depth):
+            level = [lab + (i,) for lab in level for i in range(width)]
+            out.extend(level)
+        return out
+    for depth, width in ((2, 2), (3, 3), (4, 3), (5, 2), (3, 5)):
+        want = bfs_labels(depth, width)
+        for desc, spec in (('T.**.label', T.__starstar__().label), ("'**.label'", '**.label'), ('Path(**, label)', Path(T.__starstar__(), 'label')),
+                           ('T.**.label[:2]', T.__starstar__().label[:2]), ("'**' then labels", ('**', [T.label]))):
+            got = counter.run(G, FreshTree((), depth, width), spec) if hasattr(counter, 'run') else call(G, FreshTree((), depth, width), spec)
+            col.case(('fresh-children', 'tree', depth, width, desc), True)
+            col.count('wildcard_evaluations')
+            col.count('walks_over_children_created_on_access')
+            w = [lab[:2] for lab in want] if '[:2]' in desc else want
+            if not got.ok or list(got.value) != w:
+                n = len(got.value) if got.ok and hasattr(got.value, '__len__') else None
+                col.violation('C14/starstar-misses-descendants-created-on-access', '%s over a tree of depth %d, width %d whose nodes are created by '
+                              'iteration: %s of %d descendants reached (%s)' % (desc, depth, width, n, len(want), short(got, 160)), None)
+    for n in (3, 6):
+        data = {'k%d' % i: {'j%d' % j: {'leaf': (i, j), 'sub': {'leaf': ('s', i, j)}} for j in range(n)} for i in range(n)}
+        want = [v['leaf'] for v in _plain_bfs(data) if isinstance(v, dict) and 'leaf' in v]
+        for desc, spec in (("'**.leaf'", '**.leaf'), ('T.**[leaf]', T.__starstar__()['leaf'])):
+            got = call(G, FreshDict(data), spec)
+            col.case(('fresh-children', 'dict', n, desc), True)
+            col.count('wildcard_evaluations')
+            col.count('walks_over_children_created_on_access')
+            if not got.ok or got.value != want:
+                col.violation('C14/starstar-misses-descendants-created-on-access', '%s over a mapping that wraps its nested dicts anew on every access: '
+                              '%s of %d leaves (%s)' % (desc, len(got.value) if got.ok else None, len(want), short(got, 160)), None)
+
+
+def _plain_bfs(v):
+    out, queue = [], [v]
+    while queue:
+        cur = queue.pop(0)
+        out.append(cur)
+        if isinstance(cur, dict):
+            queue.extend(cur.values())
+    return out
+
+
 def mutate_case(col, rng):
     """Assign / Delete through wildcards act on every entry"""
     def build():
@@ -676,6 +748,7 @@ def run(ctx):
     try:
         if ctx.shard == 0:
             special_iterables(col, counter)
+            children_created_on_access(col, counter)
         for i in range(ctx.n(25000, 100000)):
             eval_case(col, counter, rng)
         for i in range(ctx.n(2500, 10000)):
